@@ -1,3 +1,3 @@
 Require Import Extraction ExtrOcamlBasic.
-Require Import SD.Ordered U.UnordArr M.MapFlat R.MapRec R.DModel3 Inst.DeriveInst.
-Extraction "derive_model.ml" x_diff x_apply_single x_apply x_setter.
+Require Import SD.Ordered U.UnordArr M.MapFlat R.MapRec R.DModel3 Inst.DeriveInst W.WireDerive Inst.WireDeriveInst.
+Extraction "derive_model.ml" x_diff x_apply_single x_apply x_setter w_ser_es w_de_es w_erase.
